@@ -61,12 +61,12 @@ func runC01(ctx *core.Ctx) {
 	ctx.Assume("single producer, so emission order is arrival order (block strategy, no drops)",
 		"a missing window is declared only after the engine stayed quiet with empty buffers for ≥0.75 s and a further 4 s wait",
 		"yield-point perturbation is PRNG driven; interleavings are sampled, not enumerated")
-	n := ctx.N(60, 1500)
+	n := ctx.N(200, 15000)
 	ctx.Cases("c01", n, 4*workers(), func(i int, r *rand.Rand) {
 		c := genEvTumbling(core.CaseRef{Stream: "c01", Index: i}, r, 10)
 		execC01(ctx, c)
 	})
-	npt := ctx.N(4, 48)
+	npt := ctx.N(6, 96)
 	ctx.Cases("c01pt", npt, 8, func(i int, r *rand.Rand) {
 		execC01PT(ctx, core.CaseRef{Stream: "c01pt", Index: i}, r)
 	})
